@@ -37,6 +37,11 @@ pub enum CallKind {
     DecompressZstd(u8),
     WrapperCompress(u8),
     WrapperDecompress(u8),
+    /// error paths: 16 byte output windows, an 8 byte zstd budget, a stream with a reserved block type
+    WrapperCompressTiny(u8),
+    WrapperDecompressTiny(u8),
+    DecompressZstdTiny(u8),
+    DecompressGarbage(u8),
 }
 
 impl CallKind {
@@ -51,6 +56,10 @@ impl CallKind {
             CallKind::DecompressZstd(_) => "decompress_zstd",
             CallKind::WrapperCompress(_) => "WrapperCompressZip",
             CallKind::WrapperDecompress(_) => "WrapperDecompressZip",
+            CallKind::WrapperCompressTiny(_) => "WrapperCompressZip(16 byte window)",
+            CallKind::WrapperDecompressTiny(_) => "WrapperDecompressZip(16 byte window)",
+            CallKind::DecompressZstdTiny(_) => "decompress_zstd(capacity 8)",
+            CallKind::DecompressGarbage(_) => "decompress_deflate_stream(invalid stream)",
         }
     }
     fn to_json(&self) -> J {
@@ -63,6 +72,10 @@ impl CallKind {
             CallKind::DecompressZstd(i) => ("decompress_zstd", i, false),
             CallKind::WrapperCompress(i) => ("wrapper_compress", i, false),
             CallKind::WrapperDecompress(i) => ("wrapper_decompress", i, false),
+            CallKind::WrapperCompressTiny(i) => ("wrapper_compress_tiny", i, false),
+            CallKind::WrapperDecompressTiny(i) => ("wrapper_decompress_tiny", i, false),
+            CallKind::DecompressZstdTiny(i) => ("decompress_zstd_tiny", i, false),
+            CallKind::DecompressGarbage(i) => ("decompress_garbage", i, false),
         };
         J::Str(format!("{}:{}:{}", k, i, v as u8))
     }
@@ -81,6 +94,10 @@ impl CallKind {
             "decompress_zstd" => CallKind::DecompressZstd(i),
             "wrapper_compress" => CallKind::WrapperCompress(i),
             "wrapper_decompress" => CallKind::WrapperDecompress(i),
+            "wrapper_compress_tiny" => CallKind::WrapperCompressTiny(i),
+            "wrapper_decompress_tiny" => CallKind::WrapperDecompressTiny(i),
+            "decompress_zstd_tiny" => CallKind::DecompressZstdTiny(i),
+            "decompress_garbage" => CallKind::DecompressGarbage(i),
             _ => return None,
         })
     }
@@ -183,6 +200,41 @@ pub fn perform(pool: &Pool, call: CallKind) -> CallOutput {
                 } else {
                     Err(st)
                 }
+            }
+            CallKind::WrapperCompressTiny(i) => {
+                let f = &pool.files[i as usize];
+                let mut out = vec![0u8; 16];
+                let mut rs: u64 = WRAP_SENTINEL;
+                let st = unsafe { preflate_rs::WrapperCompressZip(f.as_ptr(), f.len() as u64, out.as_mut_ptr(), out.len() as u64, &mut rs) };
+                if st == 0 {
+                    out.truncate((rs as usize).min(16));
+                    Ok(out)
+                } else {
+                    Err(st)
+                }
+            }
+            CallKind::WrapperDecompressTiny(i) => {
+                let Some(b) = &pool.wrapped[i as usize] else { return Err(-1000) };
+                let mut out = vec![0u8; 16];
+                let mut rs: u64 = WRAP_SENTINEL;
+                let st = unsafe { preflate_rs::WrapperDecompressZip(b.as_ptr(), b.len() as u64, out.as_mut_ptr(), out.len() as u64, &mut rs) };
+                if st == 0 {
+                    out.truncate((rs as usize).min(16));
+                    Ok(out)
+                } else {
+                    Err(st)
+                }
+            }
+            CallKind::DecompressZstdTiny(i) => {
+                let Some(b) = &pool.blobs[i as usize] else { return Err(-1000) };
+                preflate_rs::decompress_zstd(b, 8).map_err(|e| e.exit_code().as_integer_error_code())
+            }
+            CallKind::DecompressGarbage(i) => {
+                let mut s = pool.streams[i as usize].to_vec();
+                if !s.is_empty() {
+                    s[0] = 0xff; // final block of the reserved block type 3
+                }
+                preflate_rs::decompress_deflate_stream(&s, false, 0).map(|r| r.plain_text).map_err(|e| e.exit_code().as_integer_error_code())
             }
             CallKind::WrapperDecompress(i) => {
                 let Some(b) = &pool.wrapped[i as usize] else { return Err(-1000) };
@@ -296,7 +348,14 @@ pub fn build_reference(pool: &mut Pool) -> Reference {
     }
     // consumers
     for i in 0..nf as u8 {
-        for c in [CallKind::Recreate(i), CallKind::DecompressZstd(i), CallKind::WrapperDecompress(i)] {
+        for c in [
+            CallKind::Recreate(i),
+            CallKind::DecompressZstd(i),
+            CallKind::WrapperDecompress(i),
+            CallKind::WrapperCompressTiny(i),
+            CallKind::WrapperDecompressTiny(i),
+            CallKind::DecompressZstdTiny(i),
+        ] {
             let (o, n) = counted(|| perform(pool, c));
             calls.push(c);
             outputs.push(o);
@@ -304,11 +363,12 @@ pub fn build_reference(pool: &mut Pool) -> Reference {
         }
     }
     for i in 0..ns as u8 {
-        let c = CallKind::Recompress(i);
-        let (o, n) = counted(|| perform(pool, c));
-        calls.push(c);
-        outputs.push(o);
-        hook_counts.push(n);
+        for c in [CallKind::Recompress(i), CallKind::DecompressGarbage(i)] {
+            let (o, n) = counted(|| perform(pool, c));
+            calls.push(c);
+            outputs.push(o);
+            hook_counts.push(n);
+        }
     }
     Reference {
         calls,
@@ -760,6 +820,22 @@ pub fn gen_pool(master: u64, job: u64, tier: Tier) -> Pool {
             files.push(Arc::new(f));
             continue;
         }
+        if job % 4 == 1 {
+            // a member plus a literal stretch of more than 64 KiB (several passes of the literal copy loop)
+            let mut f = workload::gen_file(&mut rng, sc).file;
+            let n = rng.range(70_000, 210_000) as usize;
+            let start = f.len();
+            f.resize(start + n, 0);
+            rng.fill(&mut f[start..]);
+            for b in f[start..].iter_mut() {
+                *b = 0x20 + (*b % 0x50);
+                if *b == b'P' || *b == b'I' || *b == 0x78 {
+                    *b = b'.';
+                }
+            }
+            files.push(Arc::new(f));
+            continue;
+        }
         files.push(Arc::new(workload::gen_file(&mut rng, sc).file));
     }
     let mut streams = Vec::new();
@@ -1059,7 +1135,7 @@ impl Engine for SchedEngine {
 
     fn jobs(&self, tier: Tier) -> u64 {
         match tier {
-            Tier::Quick => 48,
+            Tier::Quick => 64,
             Tier::Thorough => 800,
         }
     }
@@ -1160,7 +1236,7 @@ impl Engine for SchedEngine {
 
         // --- scheduled executions
         let nexec = match ctx.tier {
-            Tier::Quick => 8,
+            Tier::Quick => 12,
             Tier::Thorough => 24,
         };
         let mut rng = Rng::new(derive(ctx.master_seed ^ 0x5c4ed2, ctx.job));
